@@ -3,6 +3,7 @@ Order facts about the exact binary64 model: `F64.ge` compares the rationals the 
 doubles stand for, and integers below 2^53 convert exactly (hence monotonically).
 -/
 import SmVerif.Lemmas.Float64Lemmas
+import SmVerif.Lemmas.SearchFloat
 import Mathlib.Tactic.Linarith
 
 set_option autoImplicit false
@@ -46,8 +47,7 @@ theorem ofNat_val {n : Nat} (h : n < 2 ^ 53) : (ofNat n).val = n := by
   · rw [ofNat_zero_val]; simp
   · exact (ofNat_exact n h0 h).1
 
-theorem ge_trans {x y z : F} (h1 : ge x y = true) (h2 : ge y z = true) : ge x z = true := by
-  rw [ge_iff] at *; linarith
+-- `ge_trans`, `ge_total`, `ge_refl`: `Lemmas/SearchFloat.lean` (C06), same namespace
 
 /-- integers below 2^53: `float(a) >= t` is monotone in `a` -/
 theorem ge_ofNat_mono {a b : Nat} (hab : a ≤ b) (hb : b < 2 ^ 53) {t : F}
@@ -60,9 +60,6 @@ theorem ge_ofNat_mono {a b : Nat} (hab : a ≤ b) (hb : b < 2 ^ 53) {t : F}
 
 theorem not_ge_iff (x y : F) : ge x y = false ↔ x.val < y.val := by
   rw [← Bool.not_eq_true, ge_iff]; exact not_le
-
-theorem ge_total (x y : F) : ge x y = true ∨ ge y x = true := by
-  rw [ge_iff, ge_iff]; exact le_total _ _
 
 theorem divNat_zero_val (n : Nat) : (divNat 0 n).val = 0 := by
   unfold divNat
